@@ -127,6 +127,9 @@ def _via(md, how, t):
         return md.parse(t)[0]
     if _TMP is None:
         _TMP = tempfile.mkdtemp(prefix="c16_")
+        import atexit
+        import shutil
+        atexit.register(shutil.rmtree, _TMP, True)
     path = os.path.join(_TMP, "doc.md")
     with open(path, "wb") as f:
         f.write(t.encode("utf-8", "surrogatepass"))
